@@ -120,17 +120,22 @@ def damaged (tableLines : List String) : Bool :=
     | "table" :: _ => true
     | _ => false
 
-def runProbes (db : DB) (tables : List Bytes) : List String → DB × List String
-  | [] => (db, [])
+/-- the probe statements on a recovered image; a table a probe creates is listed from then on -/
+def runProbesT (db : DB) (tables : List Bytes) : List String → DB × List Bytes × List String
+  | [] => (db, tables, [])
   | p :: rest =>
     let stTmp : St := { db := db, tables := tables }
     let (st', out) := match Mkdb.Driver.Exec.parseQuery [p] with
       | some (.ok s) => runStmt stTmp s
       | some (.err e) => (stTmp, ["parseerr " ++ Sql.showErr e])
       | _ => (stTmp, ["bad-op"])
-    let (db2, tl) := tableLines st'.db tables
-    let (db3, more) := runProbes db2 tables rest
-    (db3, [s!"probe {p}"] ++ out ++ tl ++ more)
+    let (db2, tl) := tableLines st'.db st'.tables
+    let (db3, tables3, more) := runProbesT db2 st'.tables rest
+    (db3, tables3, [s!"probe {p}"] ++ out ++ tl ++ more)
+
+def runProbes (db : DB) (tables : List Bytes) (ps : List String) : DB × List String :=
+  let r := runProbesT db tables ps
+  (r.1, r.2.2)
 
 def parseRows (s : String) : List (List Tuple.Val) :=
   (s.splitOn "|").map fun r => (words r).map Tuple.parseVal
@@ -172,13 +177,13 @@ def stepLine (st : St) (line : String) : St × List String :=
       let db := { db with store := reopen db.store }
       let (db1, tl) := tableLines db st.tables
       if damaged tl then (st, [head] ++ tl ++ ["end"]) else
-      let (db2, pl) := runProbes db1 st.tables probes
+      let (db2, tables2, pl) := runProbesT db1 st.tables probes
       if pl.any (· == "hang") then (st, [head] ++ tl ++ (pl.takeWhile fun l => l != "hang") ++ ["hang", "end"]) else
       if pl.any (· == "panic") then (st, [head] ++ tl ++ (pl.takeWhile fun l => l != "panic") ++ ["panic", "end"]) else
       if !again then (st, [head] ++ tl ++ pl ++ ["end"]) else
       let againLines : List String := match recover { db2 with store := reopen db2.store } [] [] with
-        | .ok db3 => ["again ok"] ++ (tableLines { db3 with store := reopen db3.store } st.tables).2
-        | .err _ db3 => ["again initerr"] ++ (tableLines { db3 with store := reopen db3.store } st.tables).2
+        | .ok db3 => ["again ok"] ++ (tableLines { db3 with store := reopen db3.store } tables2).2
+        | .err _ db3 => ["again initerr"] ++ (tableLines { db3 with store := reopen db3.store } tables2).2
         | .panic _ => ["again panic"]
         | .unmodelled w => ["again unmodelled " ++ w]
         | .fuel => ["again hang"]
@@ -255,6 +260,7 @@ structure J where
   stopped : Bool := false           -- recovery failed: nothing more to judge
   mustNotExist : List Bytes := []   -- tables whose CREATE TABLE returned an error
   prefixes : List (Bytes × List (List Tuple.Val)) := []   -- row-prefix states of refused multi-row statements
+  afterRefusedMultirow : Bool := false   -- such a statement occurred earlier in this history (sticky)
   prevSdb : SDB := []               -- the tables before the last statement
   lastStmt : Option Stmt := none    -- the last statement (for crash images)
 
@@ -269,7 +275,14 @@ def parseImplRows (s : String) : List (Nat × List Tuple.Val) :=
     | idw :: vs => (idw.dropEnd 1).toString.toNat?.map fun id => (id, vs.map Tuple.parseVal)
     | [] => none
 
-def vio (j : J) (sig what : String) : String := s!"VIOLATION case={j.caseId} sig={sig} {what}"
+/-- After a multi-row statement was refused at a later row, the rows before it may be applied and
+unlogged (the known finding of C14): whatever goes wrong later in the same history - a DELETE of such
+a row whose log record finds no cell at recovery, contents that differ - is a consequence of it and is
+marked, so that it is matched with that finding and not reported as something new. -/
+def vio (j : J) (sig what : String) : String :=
+  let sig' := if j.afterRefusedMultirow && !sig.startsWith "db:failed-" && !sig.startsWith "db:fimage-" && !sig.startsWith "db:image-"
+      && !sig.startsWith "db:invalid-" && !sig.startsWith "db:cache-full" then sig ++ ":after-refused-multirow-statement" else sig
+  s!"VIOLATION case={j.caseId} sig={sig'} {what}"
 
 /-- A difference found after a refused statement is blamed on that statement only when the table was
 read back and found right after its last successful change; otherwise the difference may be older
@@ -317,6 +330,7 @@ def applyStmt (j : J) (op : String) (stmt : Stmt) (outs : List String) : J × Li
     else
       let isCreate := match stmt with | .createTable _ _ => true | _ => false
       ({ j with tainted := taint j table, prefixes := j.prefixes ++ prefixStates j.sdb stmt,
+                afterRefusedMultirow := j.afterRefusedMultirow || !(prefixStates j.sdb stmt).isEmpty,
                 mustNotExist := if isCreate && (findTable j.sdb table).isNone then table :: j.mustNotExist else j.mustNotExist }, [])
 
 def judgeSelect (j : J) (table : Bytes) (outs : List String) : J × List String :=
@@ -498,7 +512,7 @@ def judgeLine (j : J) (op : String) (outs : List String) : J × List String :=
             let vals := rows.map fun r => rowOf tb cs r
             let good := (vals.takeWhile (·.isSome)).filterMap id
             (List.range good.length).map fun k => (tbl, tb.rows.map (·.vals) ++ good.take (k + 1))
-        ({ j with tainted := taint j tbl, prefixes := j.prefixes ++ pre }, [])
+        ({ j with tainted := taint j tbl, prefixes := j.prefixes ++ pre, afterRefusedMultirow := j.afterRefusedMultirow || !pre.isEmpty }, [])
   | ["select", table] => judgeSelect j ((bytesOfHex table).getD []) outs
   -- a statement run with a page cache too small for it (judge only): refused with "cache is full" is
   -- fine, but then the table holds what it held
